@@ -51,7 +51,7 @@ def cfg(tier):
 
 
 def budget(tier):
-    return 3000 if tier == "quick" else 80000
+    return 5000 if tier == "quick" else 80000
 
 
 def strategy(tier):
@@ -136,7 +136,7 @@ def run_case(case, stats):
         finally:
             env.close()
         return
-    universe, leaves, S, base, final = body
+    universe, leaves, S, base, final, *rest = body
     T = 1
     third = ({0, 1, 2} - {S, T}).pop()
     env = Env(leaves)
@@ -176,6 +176,22 @@ def run_case(case, stats):
         stats.mark_nontrivial(codec.digest(case), lambda: describe(case), cls=cls)
     finally:
         env.close()
+
+
+EXHAUSTIVE_NOTE = "the base x final-operation grid of C03 (vf/checks/c03.py:grid_cases), every option combination"
+
+
+def exhaustive(tier, stats, shard, nshards, run):
+    for idx, case in enumerate(c03.grid_cases(tier)):
+        if idx % nshards != shard:
+            continue
+        case = ("opt", case)
+        try:
+            run(case)
+        except Violation as v:
+            v.case = case
+            raise
+        stats.c["grid_cases"] += 1
 
 
 def describe(case):
